@@ -81,6 +81,7 @@ func runC03(c *Ctx) {
 		"C03.f SGR-1006 encoding: motion bit 32, button mask 0xC3, Shift/Alt/Ctrl bits 4/8/16, column = P2-1, row = P3-1, M press / m release, motion overrides; MouseButton constants equal the xterm button numbers",
 		"C03.g focus, paste-bracket and mouse events are posted under exactly their dispatch keys and under no condition outside the report; key-carrying finals are consumed silently only behind a reply discriminator",
 		"C03.i request flag / reply channel pairing (reqCursorPos / chCursorPos): a requester that sets the flag reaches every return through the reply arm or a store of false; handleSequence hands a report over only while the flag is set, clears it before the hand-over and on every path that consumed the report",
+		"C03.m a request flag is stored before the query it belongs to is written: in a requester, every terminal write from which the wait on the reply channel is reachable comes after the store of true on every path (a reply dispatched between write and store would be delivered as a key and the answer lost)",
 	}
 	c.NotDec = []string{
 		"exactness of each key decode (C09 decides the key tables), DECRPM numbers and capability effects (C07.c)",
@@ -103,6 +104,7 @@ func runC03(c *Ctx) {
 	c.expect("C03.f", 12)
 	c.expect("C03.g", 10)
 	c.expect("C03.i", 3)
+	c.expect("C03.m", 1)
 
 	c03Normalise(c)
 	x := &c03Env{c: c}
